@@ -250,6 +250,39 @@ var (
 	timeLabel = []string{"zero-time", "epoch", "now", "far-future", "pre-epoch", "far-past"}
 )
 
+// A time.Time value is an instant AND a location.  The alternatives above are
+// all in UTC; the zoned alternatives denote instants that are also offered in
+// UTC, in locations with a non-zero offset: two fixed zones (+08:00, −03:30:
+// whole and half hours, east and west; for the epoch the local calendar date
+// and year differ from the UTC ones) and time.Local — which this process sets
+// to a fixed non-UTC zone (init below), the situation of a node started with
+// TZ=Asia/Shanghai, and also the location of every time the binary decoder
+// returns (ReadTime: time.Unix).  timeTwin maps a zoned alternative to the UTC
+// alternative of the same instant (−1: none).
+var (
+	zoneEast  = time.FixedZone("UTC+8", 8*3600)
+	zoneWest  = time.FixedZone("UTC-3:30", -(3*3600 + 30*60))
+	zoneLocal = time.FixedZone("verif-local+5:45", 5*3600+45*60)
+	timeTwin  []int
+)
+
+func init() {
+	time.Local = zoneLocal
+	for range timeAlts {
+		timeTwin = append(timeTwin, -1)
+	}
+	zoned := func(utcIdx int, loc *time.Location, label string) {
+		timeAlts = append(timeAlts, timeAlts[utcIdx].In(loc))
+		timeLabel = append(timeLabel, label)
+		timeTwin = append(timeTwin, utcIdx)
+	}
+	zoned(2, zoneEast, "now-zone-east")
+	zoned(2, zoneWest, "now-zone-west")
+	zoned(2, time.Local, "now-zone-local")
+	zoned(1, zoneWest, "epoch-zone-west")
+	zoned(1, time.Local, "epoch-zone-local")
+}
+
 // ---------------------------------------------------------------- building
 
 func fillBytes(p []byte, seed uint32) {
